@@ -14,7 +14,7 @@ Record num := mknum { n_text : list N; n_val : xnum }.
 Definition num_ok (n : num) : Prop := parse_double (n_text n) = Some (n_val n).
 Record inum := mkinum { i_text : list N; i_val : Z }.
 Definition inum_ok (n : inum) : Prop := parse_int (i_text n) = Some (i_val n).
-Definition positive_x (x : xnum) : Prop := xle x xq0 = false.       (* what "R x" and [Reference] accept *)
+Definition positive_x (x : xnum) : Prop := xlt xq0 x = true.        (* what "R x" and [Reference] accept: x > 0.0 (fix DB93) *)
 
 (* ---- the option line ------------------------------------------------------------------------ *)
 Inductive ofield := OFKw (o : opkw) | OFR (n : num).
